@@ -84,17 +84,79 @@ Definition run_C32 (i : val) : val :=
     VL [VB wire; vLZ errs; VL (map enc_rres (read_all (fuel_of wire) mr 0 wire))]
   end.
 
-Definition agree_C32 (i o : val) : bool := val_eqb (run_C32 i) o.
+(* the harness also reads the same wire with Framer.ReadMetaHeaders set (the mode the server uses) and appends those
+   results as a 4th component; the model covers the first three (hpack decoding belongs to C30/C31) *)
+Definition agree_C32 (i o : val) : bool :=
+  match o with
+  | VL [w; e; r; _] => val_eqb (run_C32 i) (VL [w; e; r])
+  | _ => val_eqb (run_C32 i) o
+  end.
 
 Definition all_wf (cs : list wcmd) : bool := forallb wf_cmd cs.
+
+(* meta-mode result: [0 ty fl sid len ...] frame | [7 sid nfields truncated] merged header block | errors as before.
+   Consistency with the plain results: every HEADERS frame together with its CONTINUATION frames is replaced by one
+   merged block or by an error; everything else is identical (same header fields, same error). *)
+Definition is_err (v : val) : bool := match v with VL (VZ 0 :: _) => false | VL (VZ 7 :: _) => false | _ => true end.
+Definition is_terminal_v (v : val) : bool := match v with VL (VZ 2 :: _) => false | _ => is_err v end.
+Definition hdr4 (v : val) : option (Z * Z * Z * Z) :=
+  match v with VL (VZ 0 :: VZ ty :: VZ fl :: VZ sid :: VZ len :: _) => Some (ty, fl, sid, len) | _ => None end.
+(* drop the CONTINUATION frames that complete a header block; returns (END_HEADERS seen, remaining results) *)
+Fixpoint skip_cont (ended : bool) (plain : list val) {struct plain} : bool * list val :=
+  if ended then (true, plain) else
+  match plain with
+  | x :: r => match hdr4 x with
+              | Some (9, fl, _, _) => skip_cont (hasf fl 4) r
+              | _ => (false, plain)
+              end
+  | [] => (false, [])
+  end.
+Definition ends_here (v : val) (mr : list val) : bool :=
+  if is_terminal_v v then match mr with [] => true | _ => false end else true.
+Fixpoint meta_ok (fuel : nat) (plain meta : list val) {struct fuel} : bool :=
+  match fuel with
+  | O => false
+  | S f =>
+    match plain, meta with
+    | [], [] => true
+    | x :: pr, m :: mr =>
+      match hdr4 x with
+      | Some (1, fl, sid, _) =>
+        let '(ended, rest) := skip_cont (hasf fl 4) pr in
+        if ended then
+          (* a complete header block: merged, or refused by HPACK / header validation *)
+          match m with
+          | VL [VZ 7; VZ msid; _; _] => (msid =? sid) && meta_ok f rest mr
+          | _ => is_err m && ends_here m mr && (if is_terminal_v m then true else meta_ok f rest mr)
+          end
+        else
+          (* the block was cut short by an error of the frame reader: the same error is reported, or the block was
+             refused before (HPACK, size limits) *)
+          match rest with
+          | y :: rest' =>
+            is_err m && ends_here m mr &&
+            (if is_terminal_v m then true
+             else if val_eqb m y then meta_ok f rest' mr else meta_ok f rest mr)
+          | [] => is_err m && is_terminal_v m && ends_here m mr
+          end
+      | Some h =>
+        match hdr4 m with Some h' => let '(a, b, c, d) := h in let '(a', b', c', d') := h' in
+                                      (a =? a') && (b =? b') && (c =? c') && (d =? d') && meta_ok f pr mr
+                     | None => false end
+      | None => val_eqb x m && ends_here x mr && (if is_terminal_v x then true else meta_ok f pr mr)
+      end
+    | _, _ => false
+    end
+  end.
 
 (* THE PROPERTY on the implementation's observation (wire bytes written, write errors, ReadFrame results):
    (1) no panic / every result decodes; (2) rules: along the wire, every frame RFC 7540 says must be refused was
    refused and accepted frames echo their header (rules_ok); (3) round trip: if every command is a Write call with
-   legal parameters, no write failed and the results are exactly the frames described by the parameters. *)
-Definition prop_C32 (i o : val) : bool :=
-  match dec_input i, o with
-  | Some (mr, cs), VL [VB wire; VL errs; VL results] =>
+   legal parameters, no write failed and the results are exactly the frames described by the parameters;
+   (4) when present, the ReadMetaHeaders-mode results are consistent with the plain ones (and no panic there). *)
+Definition prop_base (i : val) (wire : list Z) (errs results : list val) : bool :=
+  match dec_input i with
+  | Some (mr, cs) =>
     match all_some (map dec_rres_lite results) with
     | None => false
     | Some rs =>
@@ -104,7 +166,14 @@ Definition prop_C32 (i o : val) : bool :=
             val_eqb (VL results) (VL (map enc_rres (expect_all 0 cs)))
        else true)
     end
-  | _, _ => false
+  | None => false
+  end.
+Definition prop_C32 (i o : val) : bool :=
+  match o with
+  | VL [VB wire; VL errs; VL results] => prop_base i wire errs results
+  | VL [VB wire; VL errs; VL results; VL meta] =>
+    prop_base i wire errs results && meta_ok (S (length results + length meta)) results meta
+  | _ => false
   end.
 
 Definition kf_C32 (i : val) : Z :=
